@@ -42,6 +42,15 @@ def run(pid, tier, seed, replay=None):
         nq = 600 if tier == "quick" else 8000
         cases = [drv.gen_maxflow(rng, nmax=5 if i % 4 == 0 else 10) for i in range(nq)] + [drv.unit_layered(rng) for _ in range(nq)]
         trs = _fix(run_tasks("flow", "run_maxflow", cases, timeout=20), cases, "maxflow")
+        bulk = [{"seed": rng.randint(0, 10 ** 9), "count": 6000 if tier == "quick" else 80000} for _ in range(14)]
+        cov = {}
+        for r in run_tasks("flow", "run_maxflow_bulk", bulk, timeout=900):
+            if not isinstance(r, dict) or "kept" not in r:
+                raise tlc.MachineryError("max_flow bulk worker failed: " + str(r)[:300])
+            trs += r["kept"]
+            for k, v in r["cov"].items():
+                cov[k] = cov.get(k, 0) + v
+        ck.extra["max_flow_coverage_directed_generation"] = cov
     else:
         ck.mc(DIR, "FlowAlgs", "MC_ssp3.cfg")
         if tier == "thorough":
